@@ -87,6 +87,38 @@ theorem C12.kaczmarz_error_mono (m : Nat) (A : Nat → E →ₗ[ℝ] F) (At : Na
   unfold KaczmarzP.step
   split <;> exact this
 
+/-- Kaczmarz in ANY visiting order (in particular every permutation drawn by `random=True`, but
+also repeated or skipped operators): with the relaxation parameter `ω_i` of the operator that is
+visited, `0 ≤ ω_i ≤ 2/c_i²`, a sweep does not increase the distance to a solution of the
+consistent system. -/
+theorem C12.kaczmarz_error_mono_any_order (m : Nat) (A : Nat → E →ₗ[ℝ] F) (At : Nat → F →ₗ[ℝ] E)
+    (hadj : ∀ i, AdjPair (A i) (At i)) (c : Nat → ℝ) (hc0 : ∀ i, 0 ≤ c i)
+    (hc : ∀ i u, ‖A i u‖ ≤ c i * ‖u‖) (b : Nat → F) (ω : Nat → ℝ) (h0 : ∀ i, 0 ≤ ω i)
+    (h1 : ∀ i, ω i * c i ^ 2 ≤ 2) (xs : E) (hxs : ∀ i, A i xs = b i)
+    (proj : Option (E → E)) (hproj : ∀ p ∈ proj, ∀ x, ‖p x - xs‖ ≤ ‖x - xs‖)
+    (rid : Nat → Nat) (cb : Bool) (order : List Nat) (s : KaczmarzS E F) :
+    ‖((KaczmarzP.stepOrd ⟨m, fun i => A i, fun i _ => At i, b, ω, proj, rid, cb⟩ order s)).x - xs‖ ≤
+      ‖s.x - xs‖ := by
+  have hin : ∀ i (a : KaczmarzS E F),
+      ‖((KaczmarzP.inner ⟨m, fun i => A i, fun i _ => At i, b, ω, proj, rid, cb⟩ i a)).x - xs‖ ≤
+        ‖a.x - xs‖ := by
+    intro i a
+    have hk := kaczmarz_inner_mono (A i) (At i) (hadj i) (c i) (hc0 i) (hc i) (b i) (ω i) (h0 i)
+      (h1 i) xs (hxs i) a.x
+    simp only [KaczmarzP.inner]
+    cases proj with
+    | none => simpa [applyProj] using hk
+    | some p => exact le_trans (hproj p rfl _) hk
+  have hfold : ∀ (l : List Nat) (a : KaczmarzS E F),
+      ‖(l.foldl (fun s i => KaczmarzP.inner ⟨m, fun i => A i, fun i _ => At i, b, ω, proj, rid, cb⟩ i s) a).x - xs‖
+        ≤ ‖a.x - xs‖ := by
+    intro l
+    induction l with
+    | nil => intro a; exact le_rfl
+    | cons i l ih => intro a; exact le_trans (ih _) (hin i a)
+  unfold KaczmarzP.stepOrd
+  split <;> exact hfold order s
+
 /-- Landweber WITH a projection that does not increase the distance to a solution `x*` of
 `A x = b` (e.g. the metric projection onto a closed convex set containing `x*`):
 `0 ≤ ω ≤ 2/c²` ⟹ `‖x₊ − x*‖ ≤ ‖x − x*‖` (the residual itself need not be monotone then). -/
